@@ -13,7 +13,8 @@ class CollectAnnotationLines(ast.NodeVisitor):
 
   def visit_AnnAssign(self, node):
     if self.in_function and node.value is None:
-      self.annotation_lines.append(node.end_lineno - 1)  # change to 0-based
+      # (0-based line, utf-8 byte offset) of the end of the annotation
+      self.annotation_lines.append((node.end_lineno - 1, node.end_col_offset))
 
   def visit_FunctionDef(self, node):
     self.in_function = True
@@ -36,10 +37,12 @@ def augment_annotations(src):
   visitor.visit(tree)
   if visitor.annotation_lines:
     lines = src.split("\n")
-    for i in visitor.annotation_lines:
-      # Preserve comments, as they may be pytype directives. We don't bother to
-      # keep the formatting, since users never see the transformed source code.
-      line, mark, comment = lines[i].partition("#")
-      lines[i] = line + " = ..." + mark + comment
+    # Insert the assignment right after the annotation (going right to left, so
+    # that earlier offsets on the same line stay valid). Whatever follows on the
+    # line - a comment that may be a pytype directive, or `; next_statement` -
+    # is preserved.
+    for i, col in sorted(visitor.annotation_lines, reverse=True):
+      line = lines[i].encode("utf-8")
+      lines[i] = (line[:col] + b" = ..." + line[col:]).decode("utf-8")
     src = "\n".join(lines)
   return src
